@@ -1,0 +1,5 @@
+//go:build !verif
+
+package prefix
+
+func verifSeen(*Handler) {}
